@@ -1,7 +1,8 @@
 (* C23 — Concurrent reads see the same results as sequential reads.
    Pinned statements only; proofs live in theories/ConcReadProofs.v, the model in theories/ConcRead.v
-   (small-step interleaving semantics of FileStorage::read: try_lock, then seek + read_exact on the
-   SHARED handle under the lock, or open + seek + read_exact on a PRIVATE handle when contended;
+   (small-step interleaving semantics of FileStorage::read: the range check against the file length (a range
+   beyond the file is rejected at once, without lock or system call — the code after fix: dfdbce3), then try_lock,
+   then seek + read_exact on the SHARED handle under the lock, or open + seek + read_exact on a PRIVATE handle when contended;
    one schedule entry = one system call / lock action of one thread). *)
 From Agdb Require Import Bytes ConcRead ConcReadProofs.
 Local Open Scope nat_scope.
@@ -9,7 +10,7 @@ Local Open Scope nat_scope.
 (* For every number of threads, every reader program per thread (a deterministic reader that issues
    reads depending on the bytes read before), every initial position of the shared cursor and EVERY
    schedule: each completed read returned exactly what the same read returns alone
-   (`file_read content pos len`: the bytes, or the error of a short read), and the completed reads of
+   (`file_read content pos len`: the bytes, or the OutOfBounds error of a range beyond the file), and the completed reads of
    each thread, followed by the sequential reads of the rest of its program, are the reads it issues
    when run alone. *)
 Theorem C23_reads_linear :
@@ -38,16 +39,17 @@ Theorem C23_no_deadlock :
     nth_error (threads s) t = Some th -> code th = Rd pos len k ->
     exists th', nth_error (threads (step ul content s t)) t = Some th' /\
       ((phase (pc th') = S (phase (pc th)) /\ code th' = code th /\ log (step ul content s t) = log s) \/
-       (phase (pc th) = 3 /\ pc th' = Idle /\
+       ((phase (pc th) = 3 \/ (pc th = Idle /\ in_range content pos len = false)) /\ pc th' = Idle /\
         exists r, code th' = k r /\ log (step ul content s t) = log s ++ [(t, pos, len, r)])).
 Proof. exact no_deadlock. Qed.
 Print Assumptions C23_no_deadlock.
 
-(* ... and nobody can delay it: a reader scheduled 4 x (number of its sequential reads) times has
-   returned, with its sequential value, whatever the other threads did in between. *)
+(* ... and nobody can delay it: a reader scheduled `steps_seq` times (the number of actions it needs ALONE: 4 per read
+   in range, 1 per read rejected by the range check; at most 4 x the number of its sequential reads) has returned,
+   with its sequential value, whatever the other threads did in between. *)
 Theorem C23_completes :
   forall (A : Type) (content : bytes) c0 (ps : list (prog A)) sched t p0,
-    nth_error ps t = Some p0 -> 4 * reads_seq content p0 <= occ t sched ->
+    nth_error ps t = Some p0 -> steps_seq content p0 <= occ t sched ->
     nth_error (threads (run true content (init c0 ps) sched)) t = Some (mkThread Idle (Ret (run_seq content p0))).
 Proof. exact completes. Qed.
 Print Assumptions C23_completes.
@@ -84,13 +86,13 @@ Proof. exact refuted_without_lock. Qed.
 Print Assumptions C23_refuted_without_lock.
 
 (* non-vacuity: three threads (two adaptive readers: read a length byte, then that many bytes; one
-   reading inside, straddling the end (error) and an empty read beyond the end); the lock is taken
+   reading inside, straddling the end (error) and an empty read beyond the end (error)); the lock is taken
    by thread 1 first (0 and 2 contended), later by 0 (1 and 2 contended) *)
 Example C23_nonvacuous :
   let s := run true ex_content (init 5 ex_progs) ex_sched in
-  map code (threads s) = [Ret (Some [x0a; x0b]); Ret (Some []); Ret (Some [x0a; x0b])] /\
-  log s = [(1, 3, 2, Some [x0c; x0d]); (0, 0, 1, Some [x02]); (2, 0, 1, Some [x02]); (1, 4, 2, None);
-           (0, 1, 2, Some [x0a; x0b]); (2, 1, 2, Some [x0a; x0b]); (1, 9, 0, Some [])] /\
+  map code (threads s) = [Ret (Some [x0a; x0b]); Ret None; Ret (Some [x0a; x0b])] /\
+  log s = [(1, 3, 2, Some [x0c; x0d]); (0, 0, 1, Some [x02]); (2, 0, 1, Some [x02]); (1, 4, 2, None); (1, 9, 0, None);
+           (0, 1, 2, Some [x0a; x0b]); (2, 1, 2, Some [x0a; x0b])] /\
   lock s = None /\
   run_seq ex_content ex_adaptive = Some [x0a; x0b].
 Proof. exact example_run. Qed.
